@@ -72,7 +72,7 @@ REQUIRE = {"roundtrips_judged": 20000, "nested_fields_checked": 5000, "roundtrip
            "inherited_nested_fields_checked": 3000, "malformed_inputs_fed": 600, "malformed_inputs_raised": 300,
            "history_roundtrips_after_malformed_input_refused": 1000, "history_roundtrips": 4000}
 EXHAUSTIVE = {"quick": "every (class, field, boundary value) of the 33-class family x 60-value table, in json, cbor and mgpk",
-              "thorough": "every (class, field, boundary value) and every (class, field pair, value pair) over a 14-value sub-table"}
+              "thorough": "every (class, field, boundary value) and every (class, field pair, value pair) over an 8-value sub-table"}
 
 
 # ---- the registered data-object family (as tests/help/test_doming.py defines its own) ------------------
@@ -441,6 +441,9 @@ EXHAUSTIVE = {k: v.replace("60-value", f"{len(TABLE)}-value") for k, v in EXHAUS
 SUB = [None, True, 0, -1, 2**63, 1.5, -0.0, "", "é", "\U0001F600", [], {"a": [1]}, [None, {"": 0.1}], "x"]
 
 
+PAIR_IDX = [0, 2, 4, 5, 8, 9, 11, 12]       # the 8 entries of SUB used for the field-pair enumeration of the thorough tier
+
+
 def rand_scalar(rng):
     k = rng.random()
     if k < 0.08:
@@ -526,8 +529,8 @@ def cases(tier, seed, shard, nshards):
             paths = field_paths(cls)
             for i, p1 in enumerate(paths):
                 for p2 in paths[i + 1:]:
-                    for k1 in range(len(SUB)):
-                        for k2 in range(len(SUB)):
+                    for k1 in PAIR_IDX:
+                        for k2 in PAIR_IDX:
                             n += 1
                             if n % nshards == shard:
                                 yield {"kind": "pair", "cls": cls.__name__, "p1": p1, "k1": k1, "p2": p2, "k2": k2}
